@@ -6,6 +6,7 @@ CONSTANTS
   Quals = {10}
   MaxReads = 3
   Refs <- RefsTwo
+  UMIs = {1}
   Cap = 1
   MaxNs1 = {0}
   Variant = "design"
